@@ -12,7 +12,7 @@ PROPS = {
     'C02': {
         'design_ref': '§C02',
         'not_decided': [
-            'claim upstream whenever the preimage is known', 'fail back only after irrevocable removal', 'RAA blocking',
+            'claim upstream whenever the preimage is known', 'fail back only after irrevocable removal', 'when an RAA blocker must be registered and that a held monitor update is not released while the list is non-empty (only the registering / releasing statements are under contract)',
             'restart replay', 'ordering properties of channelmanager.rs',
         ],
     },
@@ -24,13 +24,13 @@ PROPS = {
     'C07': {'design_ref': '§C07', 'not_decided': ['which outputs are claimed', 'consensus validity/finality', 'get_claimable_balances conservation', 'anchors with external inputs', 'sweeps']},
     'C08': {'design_ref': '§C08', 'not_decided': ['that the monitor evaluates the (sliced, proved) go-on-chain test for every HTLC of every commitment and acts on it', 'automatic fail-back on new blocks', 'fail-back only after burial']},
     'C11': {'design_ref': '§C11', 'not_decided': ['independence from the delivery style', 'idempotent re-delivery', 'what OnchainTxHandler does on reorg', 'events already acted upon']},
-    'C12': {'design_ref': '§C12', 'not_decided': ['round trip of ChannelManager, ChannelMonitor, ChannelMonitorUpdate, graph, scorer, sweeper', 'behavioural equivalence after reload']},
+    'C12': {'design_ref': '§C12', 'not_decided': ['round trip of ChannelManager, ChannelMonitor (only the length-prefixed loop bounds and the legacy event records are under contract), ChannelMonitorUpdate, graph, scorer, sweeper', 'behavioural equivalence after reload']},
     'C13': {'design_ref': '§C12', 'not_decided': ['messages with keys/signatures', 'feature vectors', 'decoding totality on arbitrary-length input']},
     'C14': {'design_ref': '§C14', 'not_decided': ['that peeling yields each hop payload (ChaCha20 stream, filler correctness)', 'the cryptography itself (HMAC uninterpreted: that the gate compares against the HMAC of hop data + payment hash is proved)', 'failure attribution to the right hop']},
     'C15': {'design_ref': '§C15', 'not_decided': ['handshake acts (ECDH)', 'back-pressure (pausing and resuming reads) and message dispatch after decryption in peer_handler.rs', 'Init-before-anything', 'panic freedom of the rest of the peer handler']},
     'C16': {'design_ref': '§C16', 'not_decided': ['connectivity', 'capacity shared across paths', 'limits', 'does not report failure when a path exists (get_route)']},
     'C17': {'design_ref': '§C17', 'not_decided': ['the signature on channel_update (secp_verify_sig! inside update_channel_internal) and the cryptography itself (uninterpreted)', 'rejection of updates for unknown channels (map lookup)', 'removal of permanently failed channels and of nodes left without channels', 'order-independence and duplication-insensitivity of the whole graph (history property)', 'serialization of the graph', 'rapid-gossip-sync snapshots', 'that the sliced tests are applied on every path that stores information']},
-    'C18': {'design_ref': '§C18', 'not_decided': ['the cryptography itself (ECDSA / Schnorr uninterpreted: that each object is checked against the right key over the right hash is proved)', 'bech32 checksum', 'merkle root construction', 'metadata HMACs (signer.rs)', 'string-level parsing totality', 'BOLT-12 TLV stream parsing and semantic validation']},
-    'C19': {'design_ref': '§C19', 'not_decided': ['atomic map behaviour of FilesystemStore', 'crash recovery', 'clean-up call made from update_persisted_channel', 'update application order on read']},
+    'C18': {'design_ref': '§C18', 'not_decided': ['the cryptography itself (ECDSA / Schnorr uninterpreted: that each object is checked against the right key over the right hash is proved)', 'bech32 checksum', 'merkle root construction', 'metadata HMACs (signer.rs)', 'string-level parsing totality', 'BOLT-12 TLV stream parsing and semantic validation other than the amount ranges and the signature checks']},
+    'C19': {'design_ref': '§C19', 'not_decided': ['atomic map behaviour of FilesystemStore', 'crash recovery', 'the update-vs-full-monitor decision of update_persisted_channel', 'reading and applying the sorted, filtered updates (only the sort and the filter are under contract)']},
     'C20': {'design_ref': '§C20', 'not_decided': ['the notification calls themselves (connect_blocks)', 'cache eviction', 'synchronize_listeners', 'behaviour under source errors', 'termination']},
 }
